@@ -15,12 +15,22 @@ def run(tier):
     jsonl, nb = lib.gen_step(c, "Gen_CArc", "Gen_CArc.cfg" if quick else "Gen_CArc_thorough.cfg", "gen_carc")
     tb, ts = lib.replay_step(c, rt, ["arc"], jsonl, ["--slots", "3", "--allocs", "2", "--threads", "2"], parts=8,
                              what="CArc/CArcSome diverge from Arc semantics")
+    # the same behaviours over an over-aligned payload (#[repr(align(64))]: the counters sit further in front of the value)
+    tbo, tso = lib.replay_step(c, rt, ["arc64"], jsonl, ["--slots", "3", "--allocs", "2", "--threads", "2"], parts=8, label="(payload aligned to 64)",
+                               what="CArc/CArcSome diverge from Arc semantics")
+    tb += tbo
+    ts += tso
     # spec -> impl, long random behaviours
     n = 200 if quick else 4000
     jsonl2, nb2 = lib.gen_step(c, "Gen_CArc", "Gen_CArc_sim.cfg", "gen_carc_sim", simulate="num=%d" % n, workers=4, seed_=lib.seed(),
                                 limit=None if quick else 30000)  # -simulate prints far more behaviours than asked for (2.9 GB at num=5000)
     tb2, ts2 = lib.replay_step(c, rt, ["arc"], jsonl2, ["--slots", "5", "--allocs", "3", "--threads", "3"], parts=4,
                                what="CArc/CArcSome diverge from Arc semantics (long behaviour)")
+    if not quick:
+        tbo, tso = lib.replay_step(c, rt, ["arc64"], jsonl2, ["--slots", "5", "--allocs", "3", "--threads", "3"], parts=4, label="(payload aligned to 64)",
+                                   what="CArc/CArcSome diverge from Arc semantics (long behaviour)")
+        tb2 += tbo
+        ts2 += tso
     # impl -> spec
     nfiles, events = (2, 3000) if quick else (12, 30000)
     nev = lib.trace_step(c, rt, ["arc"], "Trace_CArc", "Trace_CArc.cfg", nfiles, events,
@@ -49,7 +59,7 @@ def run(tier):
             c.add_tlc("Trace_CArc.cfg (free-running threads)", r, exhaustive=False)
     c.cov["concurrent_events_validated"] = conc_events
     c.assumptions += ["scheduled replays: interleaving granularity = one public operation; free-running mode: 3 OS threads operate on their own handles of shared allocations at once, events are ordered by a global sequence number taken at completion (operations of different threads touch disjoint slots, so every merge that respects per-thread order is an admissible linearisation) and the counts are compared after the threads have joined",
-                      "strong count is read through a std Arc retained by the environment; allocations created by From<T> are observed through destructor counts only"]
+                      "payloads: an ordinary struct and one with #[repr(align(64))]", "strong count is read through a std Arc retained by the environment; allocations created by From<T> are observed through destructor counts only"]
     c.finish({"behaviours_replayed": tb + tb2, "replay_steps": ts + ts2, "trace_events_validated": nev,
               "exhaustive": True, "evaluations": tb + tb2, "distinct_nontrivial": nb + nb2,
               "rule": "all behaviours of Gen_CArc up to its depth (canonical destination slot) + TLC -simulate behaviours of depth 40; each replayed with operations executed on the thread the spec names"})
